@@ -182,6 +182,8 @@ func propReaderFailure(t *rapid.T) {
 	rd.Err, rd.ErrWithData, ek = gen.FailureKind(t, "fail") // also io.EOF: a drained bytes.Reader / finite pool
 	if rapid.Bool().Draw(t, "chunked") {
 		rd.Chunks = rapid.SliceOfN(rapid.IntRange(1, 33), 1, 4).Draw(t, "chunks")
+	} else if rapid.IntRange(0, 3).Draw(t, "collecting") == 0 {
+		rd.Collect = true // a slow source: a garbage collection lands inside the call, which is the key's last use
 	}
 	api := gen.Sampled([]string{"SignRaw", "Sign"}).Draw(t, "api")
 	// the reader is handed over as the argument, or the argument is nil and the reader is what the process-wide
@@ -193,10 +195,14 @@ func propReaderFailure(t *rapid.T) {
 	key := lib.PrivKey(d)
 	var err error
 	var gotSig bool
+	var rawR, rawS *big.Int
 	call := func(arg io.Reader) {
 		if api == "SignRaw" {
 			r, s, _, e := key.SignRaw(arg, digest)
 			err, gotSig = e, r != nil || s != nil
+			if e == nil && r != nil && s != nil {
+				rawR, rawS = lib.ScInt(r), lib.ScInt(s)
+			}
 		} else {
 			sig, e := key.Sign(arg, digest, nil)
 			err, gotSig = e, sig != nil
@@ -213,6 +219,10 @@ func propReaderFailure(t *rapid.T) {
 		}
 	} else if err != nil {
 		t.Fatalf("%s failed although 32 entropy bytes were available: %v", api, err)
+	} else if rawR != nil && !ref.ECDSAVerify(ref.BaseMul(d), digest, rawR, rawS) {
+		// (the call above was the last use of the key object, and a collecting reader ran the garbage
+		// collector during the entropy reads)
+		t.Fatalf("SignRaw returned an invalid signature (r=%x, s=%x) for d=%x digest=%x [reader collects: %v]", rawR, rawS, d, digest, rd.Collect)
 	}
 }
 
